@@ -48,7 +48,17 @@ def pin_clocks():
 
 async def run_world(net, plan, which, cut=None):
     prefixes = plan["prefixes"]
-    w = W.World(net, tree=corpus_tree(prefixes), users=corpus_users)
+    if plan.get("bases"):
+        # different users with different base directories working on the *same* virtual paths
+        n = len(plan["scripts"])
+        users = [aioftp.User(f"u{i}", None, base_path=f"/srv/u{i}") for i in range(n)]
+        tree = {"/srv": "<DIR>"}
+        for i in range(n):
+            tree[f"/srv/u{i}"] = "<DIR>"
+            tree.update({f"/srv/u{i}{k}": v for k, v in corpus_tree([""]).items()})
+        w = W.World(net, tree=tree, users=users)
+    else:
+        w = W.World(net, tree=corpus_tree(prefixes), users=corpus_users)
     await w.start()
     try:
         rng = random.Random(plan["seed"])
@@ -56,8 +66,10 @@ async def run_world(net, plan, which, cut=None):
             w.ctl.delay = lambda op, path, n: rng.choice(plan["backend_delay"])
         scripts = []
         for i in which:
-            sc = corpus(prefixes[i])[plan["scripts"][i]]
-            if plan["users"][i] == "alice":
+            sc = corpus("" if plan.get("bases") else prefixes[i])[plan["scripts"][i]]
+            if plan.get("bases"):
+                sc = [(["login", f"u{i}"] if st == ["login"] else st) for st in sc]
+            elif plan["users"][i] == "alice":
                 sc = [(["login", "alice", "secret"] if st == ["login"] else st) for st in sc]
             scripts.append(sc)
         offs = [plan["offsets"][i] for i in which] if len(which) > 1 else [0]
@@ -125,7 +137,7 @@ def run_case(case):
                                           "replay_case": {"plans": [plan]}})
             # sub-tree
             out["monitors"]["tree_vs_solo"] += 1
-            p = plan["prefixes"][i]
+            p = f"/srv/u{i}" if plan.get("bases") else plan["prefixes"][i]
             sub = {k: v for k, v in tree.items() if k == p or k.startswith(p + "/")}
             ssub = {k: v for k, v in solos[i][1].items() if k == p or k.startswith(p + "/")}
             if sub != ssub:
@@ -139,7 +151,7 @@ def run_case(case):
             if path is None or port not in port2i:
                 continue
             i = port2i[port]
-            p = plan["prefixes"][i]
+            p = f"/srv/u{i}" if plan.get("bases") else plan["prefixes"][i]
             out["monitors"]["backend_prefix"] += 1
             if not (path == p or path.startswith(p + "/") or path.rstrip("/") == p):
                 out["violations"].append({"key": f"backend-call-outside-own-prefix:{op}",
@@ -185,5 +197,15 @@ def gen_cases(tier, seed):
                           "users": ["anon", "alice", "anon"][:k], "offsets": [round(rng.random() * 0.004, 4) for _ in range(k)],
                           "lat": [rng.choice([0.0005, 0.001, 0.0015, 0.002]) for _ in range(4)], "mss": [1460, 64, 1460],
                           "backend_delay": rng.choice([None, [0, 0.0007]])})
+    # different users, different base directories, identical virtual paths
+    base_ok = [nm for nm in NAMES if nm not in ("login_pw", "relogin")]
+    for j in range(30 if tier == "quick" else 800):
+        k = 2 if j % 4 else 3
+        same = j % 3 == 0
+        first = rng.choice(base_ok)
+        plans.append({"seed": seed * 4567 + j, "bases": True, "scripts": [first if same else rng.choice(base_ok) for _ in range(k)],
+                      "prefixes": [""] * k, "users": ["u"] * k, "offsets": [round(rng.random() * 0.006, 4) for _ in range(k)],
+                      "lat": [rng.choice([0.0005, 0.001, 0.002]) for _ in range(4)], "mss": [1460, 536, 64],
+                      "backend_delay": rng.choice([None, [0, 0.0006]])})
     per = 6
     return [{"plans": plans[i:i + per]} for i in range(0, len(plans), per)]
